@@ -542,6 +542,26 @@ def _do_extract(raw, i, unitfile, repo_root, out, log, meta, twin=False):
                                      "expression": ticks[0], "replaced_by": ticks[1]})
                 log.count("outlined expression (assumed contract)")
             i += 1
+        elif dname == "outline_stmt":
+            # @outline_stmt `let x = match y {` `let x = ol_call(..);` : the whole statement that starts at the anchor
+            # (up to the brace matching the anchor's last `{`, plus the `;`) is replaced by an outlined, assumed call.
+            (a, e), _n = item.find_anchor(ticks[0], _occ(words))
+            mt2 = mask(item.joined())
+            if mt2[e - 1] != "{":
+                raise ExtractError("@outline_stmt: anchor must end with `{`")
+            close = match_bracket(mt2, e - 1)
+            k2 = close + 1
+            while mt2[k2] in " \n\t":
+                k2 += 1
+            if mt2[k2] != ";":
+                raise ExtractError("@outline_stmt: statement does not end with `;` after its closing brace")
+            li, _ = item._line_index(a)
+            lj, _ = item._line_index(k2)
+            item.replace_span(a, k2 + 1, ticks[1])
+            log.outlined.append({"item": ex.describe(), "repo_line": item.lines[li].origin[2] if item.lines[li].origin[0] == "repo" else None,
+                                 "expression": ticks[0] + f" … }};  ({lj - li + 1} lines)", "replaced_by": ticks[1]})
+            log.count("outlined statement (assumed contract)")
+            i += 1
         elif dname == "n1":
             _n1(item, ticks[0], _occ(words), log)
             i += 1
